@@ -220,7 +220,7 @@ func createPointerJobs(left, right IndividualNodes, options *IndividualNodesComp
 			a := left[leftI]
 
 			// Don't resend individuals already sent.
-			if _, ok := options.sentA.Load(a.Pointer()); ok {
+			if _, ok := options.sentA.Load(a); ok {
 				continue
 			}
 
@@ -231,12 +231,19 @@ func createPointerJobs(left, right IndividualNodes, options *IndividualNodesComp
 			}
 
 			// Don't resend individuals already sent.
-			if _, ok := options.sentB.Load(b.Pointer()); ok {
+			if _, ok := options.sentB.Load(b); ok {
 				continue
 			}
 
 			ss := a.SurroundingSimilarity(b, options.SimilarityOptions, true)
 			if ss.WeightedSimilarity() >= options.SimilarityOptions.PreferPointerAbove {
+				// An individual can only be matched once. LoadOrStore makes
+				// sure only one of the workers can claim the individual.
+				if _, taken := options.sentB.LoadOrStore(b, nil); taken {
+					continue
+				}
+
+				options.sentA.Store(a, nil)
 				options.adjustTotal(totals)
 
 				jobs <- &IndividualComparison{
@@ -245,9 +252,6 @@ func createPointerJobs(left, right IndividualNodes, options *IndividualNodesComp
 					Similarity:   ss,
 					certainMatch: true,
 				}
-
-				options.sentA.Store(a.Pointer(), nil)
-				options.sentB.Store(b.Pointer(), nil)
 			}
 		}
 	})
@@ -264,20 +268,26 @@ func createUniqueJobs(left, right IndividualNodes, options *IndividualNodesCompa
 			// Ideally we should not get multiple individuals returned. That
 			// would mean that multiple individuals share the same unique
 			// identifier. All we can do in this case is to pick the first
-			// one.
-			if len(bs) > 0 {
+			// one that has not already been matched.
+			for _, b := range bs {
+				// An individual can only be matched once. LoadOrStore makes
+				// sure only one of the workers can claim the individual.
+				if _, taken := options.sentB.LoadOrStore(b, nil); taken {
+					continue
+				}
+
+				options.sentA.Store(a, nil)
 				options.adjustTotal(totals)
-				ss := a.SurroundingSimilarity(bs[0], options.SimilarityOptions, true)
+				ss := a.SurroundingSimilarity(b, options.SimilarityOptions, true)
 
 				jobs <- &IndividualComparison{
 					Left:         a,
-					Right:        bs[0],
+					Right:        b,
 					Similarity:   ss,
 					certainMatch: true,
 				}
 
-				options.sentA.Store(a.Pointer(), nil)
-				options.sentB.Store(bs[0].Pointer(), nil)
+				break
 			}
 		}
 	})
@@ -327,12 +337,12 @@ func createJobs(totals chan int64, left, right IndividualNodes, options *Individ
 
 		// Send the remaining matrix of individuals to be compared.
 		for _, a := range left {
-			if _, ok := options.sentA.Load(a.Pointer()); ok {
+			if _, ok := options.sentA.Load(a); ok {
 				continue
 			}
 
 			for _, b := range right {
-				if _, ok := options.sentB.Load(b.Pointer()); ok {
+				if _, ok := options.sentB.Load(b); ok {
 					continue
 				}
 
